@@ -2,8 +2,15 @@
 //! Each component drives the real s2n-codec / s2n-quic-core entry points and prints a canonical
 //! integer rendering; the Coq reference codec prints the same for the same case.
 use h_common::{main_with, Cur, V};
-use s2n_codec::{DecoderBuffer, Encoder, EncoderBuffer, EncoderValue};
-use s2n_quic_core::varint::VarInt;
+use s2n_codec::{DecoderBuffer, DecoderBufferMut, Encoder, EncoderBuffer, EncoderValue};
+use s2n_quic_core::{
+    connection::id::ConnectionInfo,
+    frame::{Frame, FrameMut},
+    inet::SocketAddress,
+    packet::{number::PacketNumberSpace, ProtectedPacket},
+    stream::StreamType,
+    varint::VarInt,
+};
 
 /// case = kind :: rest
 /// kind 0: decode `rest` as bytes          -> [1, value, consumed] | [0]
@@ -47,6 +54,277 @@ fn varint(input: &[V]) -> Vec<V> {
     }
 }
 
+fn push_data(out: &mut Vec<V>, d: &[u8]) {
+    out.push(d.len() as V);
+    out.extend(d.iter().map(|b| *b as V));
+}
+
+fn push_bytes(out: &mut Vec<V>, d: &[u8]) {
+    out.extend(d.iter().map(|b| *b as V));
+}
+
+/// canonical integer rendering of a decoded frame (same layout as Frame.render in the model)
+fn render(f: FrameMut) -> Vec<V> {
+    let mut o: Vec<V> = vec![];
+    match f {
+        Frame::Padding(p) => {
+            o.push(0);
+            o.push(p.length as V);
+        }
+        Frame::Ping(_) => o.push(1),
+        Frame::Ack(a) => {
+            o.push(if a.ecn_counts.is_some() { 3 } else { 2 });
+            o.push(a.ack_delay.as_u64() as V);
+            let it = a.ack_ranges();
+            o.push(it.len() as V);
+            for r in it {
+                o.push(r.start().as_u64() as V);
+                o.push(r.end().as_u64() as V);
+            }
+            if let Some(e) = a.ecn_counts {
+                o.push(e.ect_0_count.as_u64() as V);
+                o.push(e.ect_1_count.as_u64() as V);
+                o.push(e.ce_count.as_u64() as V);
+            }
+        }
+        Frame::ResetStream(r) => {
+            o.extend([4, r.stream_id.as_u64() as V, r.application_error_code.as_u64() as V, r.final_size.as_u64() as V]);
+        }
+        Frame::StopSending(r) => {
+            o.extend([5, r.stream_id.as_u64() as V, r.application_error_code.as_u64() as V]);
+        }
+        Frame::Crypto(c) => {
+            o.extend([6, c.offset.as_u64() as V]);
+            push_data(&mut o, c.data.as_less_safe_slice());
+        }
+        Frame::NewToken(t) => {
+            o.push(7);
+            push_data(&mut o, t.token);
+        }
+        Frame::Stream(s) => {
+            o.extend([8, s.stream_id.as_u64() as V, s.offset.as_u64() as V, s.is_last_frame as V, s.is_fin as V]);
+            push_data(&mut o, s.data.as_less_safe_slice());
+        }
+        Frame::MaxData(m) => o.extend([16, m.maximum_data.as_u64() as V]),
+        Frame::MaxStreamData(m) => o.extend([17, m.stream_id.as_u64() as V, m.maximum_stream_data.as_u64() as V]),
+        Frame::MaxStreams(m) => o.extend([18, (m.stream_type == StreamType::Unidirectional) as V, m.maximum_streams.as_u64() as V]),
+        Frame::DataBlocked(m) => o.extend([20, m.data_limit.as_u64() as V]),
+        Frame::StreamDataBlocked(m) => o.extend([21, m.stream_id.as_u64() as V, m.stream_data_limit.as_u64() as V]),
+        Frame::StreamsBlocked(m) => o.extend([22, (m.stream_type == StreamType::Unidirectional) as V, m.stream_limit.as_u64() as V]),
+        Frame::NewConnectionId(n) => {
+            o.extend([24, n.sequence_number.as_u64() as V, n.retire_prior_to.as_u64() as V]);
+            push_data(&mut o, n.connection_id);
+            push_bytes(&mut o, &n.stateless_reset_token[..]);
+        }
+        Frame::RetireConnectionId(r) => o.extend([25, r.sequence_number.as_u64() as V]),
+        Frame::PathChallenge(p) => {
+            o.push(26);
+            push_bytes(&mut o, &p.data[..]);
+        }
+        Frame::PathResponse(p) => {
+            o.push(27);
+            push_bytes(&mut o, &p.data[..]);
+        }
+        Frame::ConnectionClose(c) => {
+            match c.frame_type {
+                Some(ft) => o.extend([28, c.error_code.as_u64() as V, ft.as_u64() as V]),
+                None => o.extend([29, c.error_code.as_u64() as V]),
+            }
+            push_data(&mut o, c.reason.unwrap_or(&[]));
+        }
+        Frame::HandshakeDone(_) => o.push(30),
+        Frame::Datagram(d) => {
+            o.extend([48, d.is_last_frame as V]);
+            push_data(&mut o, d.data.as_less_safe_slice());
+        }
+        Frame::DcStatelessResetTokens(t) => {
+            o.push(0xdc0000);
+            let mut bytes = vec![];
+            for tok in t.into_iter() {
+                bytes.extend_from_slice(tok.as_ref());
+            }
+            push_data(&mut o, &bytes);
+        }
+        Frame::MtuProbingComplete(m) => o.extend([0xdc0002, m.mtu as V]),
+    }
+    o
+}
+
+/// case = selector :: payload bytes.  The payload is decoded frame by frame as a packet payload
+/// is (DecoderBufferMut::decode::<FrameMut>() until empty).  Per frame:
+/// 1, rendering, consumed, encoding_size(), bytes written, re-encoded bytes, re-decodes-equal.
+/// End marker: 2 = exhausted, 0 = decode error.
+fn frames(input: &[V]) -> Vec<V> {
+    let mut bytes: Vec<u8> = input.iter().skip(1).map(|v| *v as u8).collect();
+    let total = bytes.len();
+    let mut out = vec![];
+    let mut buffer = DecoderBufferMut::new(&mut bytes);
+    let mut budget = total + 1;
+    loop {
+        if buffer.is_empty() {
+            out.push(2);
+            break;
+        }
+        if budget == 0 {
+            out.push(-8); // more frames than bytes: a decoder that makes no progress
+            break;
+        }
+        budget -= 1;
+        let before = buffer.len();
+        match buffer.decode::<FrameMut>() {
+            Err(_) => {
+                out.push(0);
+                break;
+            }
+            Ok((frame, rest)) => {
+                out.push(1);
+                let size = frame.encoding_size();
+                let mut enc = vec![0xA5u8; size + 16];
+                let written = {
+                    let mut e = EncoderBuffer::new(&mut enc);
+                    e.encode(&frame);
+                    e.len()
+                };
+                let r = render(frame);
+                out.extend(r.iter().copied());
+                out.push((before - rest.len()) as V);
+                out.push(size as V);
+                out.push(written as V);
+                enc.truncate(written);
+                push_bytes(&mut out, &enc);
+                // what the encoder emitted decodes back to the same value and nothing is left
+                let mut again = enc.clone();
+                let same = match DecoderBufferMut::new(&mut again).decode::<FrameMut>() {
+                    Ok((f2, rest2)) => rest2.is_empty() && render(f2) == r,
+                    Err(_) => false,
+                };
+                out.push(same as V);
+                buffer = rest;
+            }
+        }
+    }
+    out
+}
+
+/// case = short_dcid_len :: datagram bytes.  ProtectedPacket::decode until the datagram is
+/// exhausted.  Per packet: 1, kind, first byte, version, dcid, scid, token-ish, consumed.
+fn packets(input: &[V]) -> Vec<V> {
+    let dcid_len = input.first().copied().unwrap_or(0) as usize;
+    let mut bytes: Vec<u8> = input.iter().skip(1).map(|v| *v as u8).collect();
+    let copy = bytes.clone();
+    let total = bytes.len();
+    let remote = SocketAddress::default();
+    let info = ConnectionInfo::new(&remote);
+    let mut out = vec![];
+    let mut buffer = DecoderBufferMut::new(&mut bytes);
+    let mut budget = total + 1;
+    loop {
+        if buffer.is_empty() {
+            out.push(2);
+            break;
+        }
+        if budget == 0 {
+            out.push(-8);
+            break;
+        }
+        budget -= 1;
+        let before = buffer.len();
+        let first = copy[total - before] as V;
+        match ProtectedPacket::decode(buffer, &info, &dcid_len) {
+            Err(_) => {
+                out.push(0);
+                break;
+            }
+            Ok((packet, rest)) => {
+                out.push(1);
+                let consumed = before - rest.len();
+                match &packet {
+                    ProtectedPacket::Short(p) => {
+                        out.extend([0, first, 0]);
+                        push_data(&mut out, p.destination_connection_id());
+                        out.extend([0, 0]);
+                        assert_eq!(p.payload.len(), consumed, "payload covers the packet");
+                    }
+                    ProtectedPacket::VersionNegotiation(p) => {
+                        out.extend([1, p.tag as V, 0]);
+                        push_data(&mut out, p.destination_connection_id());
+                        push_data(&mut out, p.source_connection_id());
+                        push_data(&mut out, p.supported_versions);
+                        // the iterator yields exactly the listed versions
+                        let vs: Vec<u32> = p.iter().collect();
+                        assert_eq!(vs.len() * 4, p.supported_versions.len(), "version iterator");
+                    }
+                    ProtectedPacket::Initial(p) => {
+                        out.extend([2, first, p.version as V]);
+                        push_data(&mut out, p.destination_connection_id());
+                        push_data(&mut out, p.source_connection_id());
+                        push_data(&mut out, p.token());
+                        assert_eq!(p.payload.len(), consumed, "payload covers the packet");
+                    }
+                    ProtectedPacket::ZeroRtt(p) => {
+                        out.extend([3, first, p.version as V]);
+                        push_data(&mut out, p.destination_connection_id());
+                        push_data(&mut out, p.source_connection_id());
+                        out.push(0);
+                        assert_eq!(p.payload.len(), consumed, "payload covers the packet");
+                    }
+                    ProtectedPacket::Handshake(p) => {
+                        out.extend([4, first, p.version as V]);
+                        push_data(&mut out, p.destination_connection_id());
+                        push_data(&mut out, p.source_connection_id());
+                        out.push(0);
+                        assert_eq!(p.payload.len(), consumed, "payload covers the packet");
+                    }
+                    ProtectedPacket::Retry(p) => {
+                        out.extend([5, p.tag as V, p.version as V]);
+                        push_data(&mut out, p.destination_connection_id());
+                        push_data(&mut out, p.source_connection_id());
+                        push_data(&mut out, p.retry_token());
+                        push_bytes(&mut out, &p.retry_integrity_tag[..]);
+                    }
+                }
+                out.push(consumed as V);
+                buffer = rest;
+            }
+        }
+    }
+    out
+}
+
+/// case = [largest acknowledged, packet number] (both < 2^62)
+/// -> 1, announced length, tag bits, bytes, re-decodes-equal, expands-back | 0
+fn pn(input: &[V]) -> Vec<V> {
+    let mut c = Cur::new(input);
+    let largest = VarInt::new(c.u64()).expect("generator keeps values below 2^62");
+    let value = VarInt::new(c.u64()).expect("generator keeps values below 2^62");
+    let space = PacketNumberSpace::ApplicationData;
+    let largest = space.new_packet_number(largest);
+    let pn = space.new_packet_number(value);
+    match pn.truncate(largest) {
+        None => vec![0],
+        Some(t) => {
+            let len = t.len();
+            let mut out = vec![1, len.bytesize() as V, len.into_packet_tag_mask() as V];
+            let size = t.encoding_size();
+            let mut buf = [0u8; 16];
+            let mut e = EncoderBuffer::new(&mut buf);
+            e.encode(&t);
+            let n = e.len();
+            assert_eq!(n, size, "announced size");
+            push_bytes(&mut out, &buf[..n]);
+            // the length recovered from the tag bits reads the same truncated value back
+            let len2 = space.new_packet_number_len(len.into_packet_tag_mask() | 0xfc);
+            let same = match len2.decode_truncated_packet_number(DecoderBuffer::new(&buf[..n])) {
+                Ok((t2, rest)) => rest.is_empty() && t2 == t && len2 == len,
+                Err(_) => false,
+            };
+            out.push(same as V);
+            out.push((t.expand(largest) == pn) as V);
+            out
+        }
+    }
+}
+
 fn main() {
-    main_with(&[("varint", varint)]);
+    main_with(&[("varint", varint), ("frames", frames), ("packets", packets), ("pn", pn)]);
 }
